@@ -709,6 +709,8 @@ def payload_for(rng, name):
 
 def model_line_fields(line):
     p = line.split('|')
+    if p[0] == 'fieldsagain':
+        return '|'.join(['fields', p[1], p[3]])
     return '|'.join(['fields'] + p[1:3]) if p[0] == 'fieldsobs' else line
 
 
@@ -738,10 +740,34 @@ def real_fieldscopy(line):
         return 'EXC:' + exc_name(e)
 
 
+def real_fieldsagain(line):
+    """fieldsagain|<Class>|<payload 1>|<payload 2>|<how>: ONE frame object decodes a payload, then another one - its buffer refilled in
+    place (a receive buffer that is used again) or replaced; optionally encoded / rendered in between.  It holds the second payload's values."""
+    _, name, h1, h2, how = line.split('|')
+    how = int(how)
+    cls = find_class(name)
+    try:
+        f = cls.construct(bytearray(bytes.fromhex(h1)))
+        if how & 2:
+            f.pack()
+        if how & 4:
+            str(f)
+        if how & 1:
+            f.data[:] = bytes.fromhex(h2)
+        else:
+            f.data = bytearray(bytes.fromhex(h2))
+        f.unpack()
+        return describe_frame(f)
+    except Exception as e:
+        return 'EXC:' + exc_name(e)
+
+
 def real_fields(line):
     parts = line.split('|')
     if parts[0] == 'fieldscopy':
         return real_fieldscopy(line)
+    if parts[0] == 'fieldsagain':
+        return real_fieldsagain(line)
     name, h = parts[1], parts[2]
     pl = bytes.fromhex(h)
     given = bytearray(pl)
@@ -880,6 +906,10 @@ def gen_fields(rng, n, profile):
             pl = payload_for(rng, name)
             if wellformed(name, pl):
                 yield f'fieldsobs|{name}|{pl.hex()}|{at}'
+        for how in range(8):
+            pl, pl2 = payload_for(rng, name), payload_for(rng, name)
+            if wellformed(name, pl):
+                yield f'fieldsagain|{name}|{pl.hex()}|{pl2.hex()}|{how}'
 
 
 # ---- a user's item type ---------------------------------------------------------------------------------
@@ -1861,13 +1891,33 @@ def gen_valset(rng, n, profile):
 def real_gnss(line):
     from ubxlib.ubx_cfg_gnss import UbxCfgGnss
     _, op, sysn, bl = line.split('|')[:4]
-    prepack = line.endswith('|P')
+    tail = line.split('|')[4] if len(line.split('|')) > 4 else ''
+    prepack = tail == 'P'
     blocks = [tuple(map(int, e.split(':'))) for e in bl.split(',')] if bl else []
-    pl = bytearray([0, 32, 32, len(blocks)])
-    for i, fl in blocks:
-        pl += bytes([i, 0, 0, 0]) + struct.pack('<I', fl)
+
+    def payload(blocks):
+        pl = bytearray([0, 32, 32, len(blocks)])
+        for i, fl in blocks:
+            pl += bytes([i, 0, 0, 0]) + struct.pack('<I', fl)
+        return pl
+    pl = payload(blocks)
     try:
-        f = UbxCfgGnss.construct(pl)
+        if tail.startswith('H'):
+            # the frame object has a past: it held another message (other blocks, another order), a helper was used on it, and then
+            # this message was decoded into it - through a new buffer, or the old one refilled in place
+            how, hop, hsys, hbl = tail[1:].split('/')
+            f = UbxCfgGnss.construct(payload([tuple(map(int, e.split(':'))) for e in hbl.split(',')] if hbl else []))
+            {'enable': lambda: f.enable_gnss(int(hsys)), 'disable': lambda: f.disable_gnss(int(hsys)), 'gps_glonass': f.gps_glonass,
+             'gps_galileo_beidou': f.gps_galileo_beidou}[hop]()
+            if int(how) & 2:
+                f.pack()
+            if int(how) & 1:
+                f.data[:] = pl
+            else:
+                f.data = bytearray(pl)
+            f.unpack()
+        else:
+            f = UbxCfgGnss.construct(pl)
         if prepack:                 # the frame has been encoded (sent) once before the helper is used
             f.pack()
             f.to_bytes()
@@ -1923,7 +1973,12 @@ def gen_gnss(rng, n, profile):
         ids = [rng.randrange(8) for _ in range(rng.randrange(0, 7))] if rng.random() < .3 else rng.sample(range(8), rng.randrange(0, 9))
         bl = ','.join(f'{i}:{rng.choice(flags + [rng.randrange(1 << 32)])}' for i in ids)
         op = rng.choice(['enable', 'disable', 'gps_glonass', 'gps_galileo_beidou'])
-        yield f'gnss|{op}|{rng.randrange(8)}|{bl}' + rng.choice(['', '', '|P'])
+        past = ''
+        if rng.random() < 0.3:
+            hids = rng.sample(range(8), rng.randrange(0, 9))
+            hbl = ','.join(f'{i}:{rng.choice(flags)}' for i in hids)
+            past = f'|H{rng.randrange(4)}/{rng.choice(["enable", "disable", "gps_glonass", "gps_galileo_beidou"])}/{rng.randrange(8)}/{hbl}'
+        yield f'gnss|{op}|{rng.randrange(8)}|{bl}' + (past or rng.choice(['', '', '|P']))
 
 
 def styled(line, method, names, *args):
